@@ -12,6 +12,9 @@ use crate::protocol as fcgi;
 use crate::{cgi, Config, ExitStatus};
 
 mod util;
+#[cfg(feature = "verif-hooks")]
+#[doc(hidden)]
+pub mod verif;
 
 use util::{RepeatableLockFuture, WaitGroup};
 
